@@ -224,6 +224,8 @@ def run_property(prop, configs, tier, seed, meta):
     for kid, (k, lst) in sorted(known_hit.items()):
         print('KNOWN-FINDING: property=%s %s [%s; re-derived on %d path classes, e.g. config %s]' % (prop, k['what'], kid, len(lst), lst[0][0]['config']))
     rdir = os.path.join(VERIF, 'replay', prop); os.makedirs(rdir, exist_ok=True)
+    for f in os.listdir(rdir):
+        if f.startswith(tier + '-'): os.remove(os.path.join(rdir, f))
     seen = set(); nviol = 0
     for r, p in violations:
         key = (r['config'], p['label'])
